@@ -56,7 +56,12 @@ FIX_COMMITS = ["d6ae502 (passive start-up cancellation: port/listener leak)",
                "600ece4 (quadratic path resolution and permission lookup)",
                "016f7da (ABOR unanswered when winding up failed in the backend)",
                "ad3a684 (421 although a configured port was free and untried)",
-               "7b9cfc6 (given-up pending data connection kept, the new one turned away)"]
+               "7b9cfc6 (given-up pending data connection kept, the new one turned away)",
+               "ca6ffb5 (stray 226 after a backend time-out inside a transfer (regression of 016f7da))",
+               "5406105 (anonymous account with a password logged in without it)",
+               "1f7834a (502 quoted a long unknown verb in full)",
+               "f90dd22 (Code.matches accepted codes shorter than the mask)",
+               "6680712 (client data connection opened without connection_timeout)"]
 
 # dimensions added after the fourth wave of seeded changes (plug-in APIs as part of the input space)
 EXTRA = {
